@@ -104,15 +104,50 @@ type AATStateTableExt struct {
 	Entries    []AATStateEntry `isOpaque:""` // length is the maximum state + 1
 }
 
-func (state *AATStateTableExt) parseStates(src []byte, _, _ int) error {
-	if state.stateArray > state.entryTable {
-		return fmt.Errorf("invalid AAT state offsets (%d > %d)", state.stateArray, state.entryTable)
-	}
-	if L := len(src); L < int(state.entryTable) {
+func (state *AATStateTableExt) parseStates(src []byte, _, entryDataSize int) error {
+	if L := len(src); L < int(state.entryTable) || L < int(state.stateArray) {
 		return fmt.Errorf("EOF: expected length: %d, got %d", state.entryTable, L)
 	}
 
-	statesArray := src[state.stateArray:state.entryTable]
+	var statesArray []byte
+	if state.stateArray > state.entryTable {
+		// the entry table comes first (the offsets are independent) : the state array
+		// has no explicit end, find the states reachable from the start state, as HarfBuzz does
+		nC, entrySize := int(state.StateSize), 4+entryDataSize
+		if nC < 4 {
+			return fmt.Errorf("invalid number of classes in AAT state table: %d", nC)
+		}
+		rows, entries := src[state.stateArray:], src[state.entryTable:]
+		numStates, numEntries := 1, 0
+		for statePos, entryPos := 0, 0; statePos < numStates; {
+			limit := numStates * nC
+			if len(rows) < 2*limit {
+				return fmt.Errorf("EOF: expected length: %d, got %d", 2*limit, len(rows))
+			}
+			for i := statePos * nC; i < limit; i++ {
+				if e := int(binary.BigEndian.Uint16(rows[2*i:])); e >= numEntries {
+					numEntries = e + 1
+				}
+			}
+			statePos = numStates
+			for ; entryPos < numEntries; entryPos++ {
+				offset := entryPos * entrySize
+				if len(entries) < offset+2 {
+					return fmt.Errorf("EOF: expected length: %d, got %d", offset+2, len(entries))
+				}
+				if ns := int(binary.BigEndian.Uint16(entries[offset:])); ns >= numStates {
+					numStates = ns + 1
+				}
+			}
+		}
+		end := numStates * nC * 2
+		if len(rows) < end { // (checked by the last iteration of the loop)
+			return fmt.Errorf("EOF: expected length: %d, got %d", end, len(rows))
+		}
+		statesArray = rows[:end]
+	} else {
+		statesArray = src[state.stateArray:state.entryTable]
+	}
 	states, err := ParseUint16s(statesArray, len(statesArray)/2)
 	if err != nil {
 		return err
